@@ -147,6 +147,7 @@ def run(facts, rep, tier):
         ("R18.5", "main joins the reader thread"),
         ("R18.6", "thread::spawn has one call site"),
         ("R18.7", "a partial last line of a dropped connection is not carried into the next one"),
+        ("R18.8", "no other mutable state of the connect function is carried from one connection into the next"),
     ]:
         rep.rule(rid, txt, "P")
 
@@ -307,6 +308,58 @@ def run(facts, rep, tier):
         rep.instances("R18.7", n7, floor=1, what="line buffers of the reader loop (none = one fresh line per iteration)")
     except Broken:
         rep.instances("R18.7", 1, floor=0)
+    # R18.8: apart from the table (and the options), nothing that is modified while the decoder runs is carried from one
+    # connection into the next: a local of the connect function created before the loop, borrowed mutably inside it and
+    # handed to the per-connection reader is state that survives the interruption (a clock, a session, a parser)
+    n8 = 0
+    if inloop:
+        lblks = set()
+        for h in inloop:
+            lblks |= set(loops[h])
+        mut_in_loop = set()
+        for bi in lblks:
+            for s_ in tcp.blocks[bi]["stmts"]:
+                if s_["k"] == "assign" and s_["rv"]["k"] == "ref" and s_["rv"].get("mut") and not any(p_["k"] == "deref" for p_ in s_["rv"]["place"]["proj"]):
+                    mut_in_loop.add(s_["rv"]["place"]["local"])
+
+        def base_local(op, depth=0):
+            pl = operand_place(op)
+            if pl is None or depth > 8:
+                return None
+            l = pl["local"]
+            ds = du.whole_defs(l)
+            if len(ds) == 1 and ds[0][0] == "stmt":
+                rv = ds[0][3]["rv"]
+                if rv["k"] == "ref":
+                    return rv["place"]["local"]
+                if rv["k"] == "use":
+                    return base_local(rv["x"], depth + 1)
+            return l
+
+        def defined_outside(l):
+            if l <= tcp.arg_count:
+                return False
+            ds = du.whole_defs(l)
+            return bool(ds) and all(d[1] not in lblks for d in ds)
+
+        for bi in sorted(lblks):
+            t = tcp.blocks[bi]["term"]
+            if t["k"] != "call" or callee_name(t) not in facts.bodies:
+                continue
+            for a in t["args"]:
+                l = base_local(a)
+                if l is None:
+                    continue
+                n8 += 1
+                bad8 = defined_outside(l) and l in mut_in_loop
+                rep.oblige(not bad8, ("cross-connection", bi, l))
+                if bad8:
+                    nm = tcp.locals[l].get("name") or "_%d" % l
+                    rep.add(Finding("R18.8", "%s : `%s` lives across connections" % (tcp.name, nm),
+                                    "`%s` (%s) is created before the connect loop, modified inside it and handed to %s: besides the table, "
+                                    "state of one connection reaches the next (what is decoded after a reconnect depends on the history of "
+                                    "interruptions)" % (nm, tcp.locals[l]["ty"]["s"], callee_name(t)), span_loc(t.get("span"))))
+    rep.instances("R18.8", n8, floor=2, what="arguments handed to crate functions inside the connect loop")
     # R18.5 / R18.6
     spawns = []
     for n_, b in list(facts.bodies.items()) + list(facts.bin_bodies.items()):
